@@ -224,20 +224,24 @@ mod protected {
                 where
                     A: SeqAccess<'de>,
                 {
-                    let mut arr = HeapByteArray::<LENGTH>::gen_locked()
-                        .expect("couldn't create locked bytes");
+                    let mut arr = HeapByteArray::<LENGTH>::new_locked()
+                        .map_err(|e| Error::custom(format!("{:?}", e)))?;
                     let mut idx: usize = 0;
-                    let size_hint = seq.size_hint().unwrap_or(0);
-                    if size_hint != LENGTH {
-                        Err(Error::invalid_length(size_hint, &stringify!(LENGTH)))
-                    } else {
-                        while let Some(elem) = seq.next_element()? {
-                            arr[idx] = elem;
-                            idx += 1;
-                        }
 
-                        Ok(arr)
+                    // count the elements actually present: the size hint is
+                    // optional (JSON gives none)
+                    while let Some(elem) = seq.next_element()? {
+                        if idx >= LENGTH {
+                            return Err(Error::invalid_length(idx + 1, &stringify!(LENGTH)));
+                        }
+                        arr[idx] = elem;
+                        idx += 1;
                     }
+                    if idx != LENGTH {
+                        return Err(Error::invalid_length(idx, &stringify!(LENGTH)));
+                    }
+
+                    Ok(arr)
                 }
 
                 fn visit_bytes<E>(self, v: &[u8]) -> Result<Self::Value, E>
